@@ -380,7 +380,7 @@ def judge_merge(job, lines, crashed, stderr=''):
         out.append("distinct vertices of the right graph land on one vertex: %r" % M)
     for r in R:
         if hv[r]['persistence'] != 0 and (v1[M[r]]['persistence'] == 0 or list(v1[M[r]]['data']) != list(hv[r]['data'])):
-            out.append("vertex %d of the right graph holds %r, its image %d holds %r" % (r, hv[r]['data'], M[r], v1[M[r]]['data']))
+            out.append("vertex %d of the right graph holds %r, its image %d holds %s" % (r, hv[r]['data'], M[r], repr(v1[M[r]]['data']) if v1[M[r]]['persistence'] else 'no data'))
     if not pres0 <= pres1:
         out.append("vertices %r of the left graph are gone" % sorted(pres0 - pres1))
     if pres1 - pres0 != set(new):
